@@ -4,6 +4,7 @@ package verifharness
 import (
 	"fmt"
 	"os"
+	"regexp"
 	"strings"
 	"testing"
 	"testing/fstest"
@@ -17,6 +18,8 @@ type C13Conf struct {
 	Lines   []string `json:"lines"`
 	Dataset []string `json:"dataset,omitempty"` // content of data set "ds"
 	File    []string `json:"file,omitempty"`    // content of words.data in this WAF's root FS
+	// SchemaReq: the property schema.json (same name and same $id in every root FS) requires
+	SchemaReq string `json:"schema_requires,omitempty"`
 }
 
 type C13Op struct {
@@ -37,7 +40,7 @@ var c13Phrases = [][]string{{"abc", "select"}, {"zzz"}, {"admin", "x1"}, {"ab"},
 	{"ab", "c"}, {"a", "bc"}, {"abc"}, {"union", "select"}, {"unionselect"}}
 
 func genC13Line(t *rapid.T, id int, s string) string {
-	switch rapid.IntRange(0, 11).Draw(t, "role") {
+	switch rapid.IntRange(0, 12).Draw(t, "role") {
 	case 0:
 		return fmt.Sprintf("SecRule ARGS \"@pm %s\" \"id:%d,phase:1,pass\"", s, id)
 	case 1:
@@ -54,6 +57,8 @@ func genC13Line(t *rapid.T, id int, s string) string {
 		return fmt.Sprintf("SecRule ARGS \"@rx \\xff%s\" \"id:%d,phase:1,pass\"", s, id)
 	case 7:
 		return "SecAuditLogRelevantStatus " + s
+	case 12: // a JSON schema file: same name, same $id, possibly another content in another WAF's root
+		return fmt.Sprintf("SecRule ARGS_GET:j \"@validateSchema schema.json\" \"id:%d,phase:1,pass\"", id)
 	case 10: // the same selector text on a case-insensitive collection compiles to a different (lower-cased) expression
 		return fmt.Sprintf("SecRule %s:/%s/ \"@rx .\" \"id:%d,phase:1,pass\"", rapid.SampledFrom([]string{"REQUEST_HEADERS", "REQUEST_COOKIES", "REQUEST_HEADERS_NAMES"}).Draw(t, "civar"), s, id)
 	case 11:
@@ -83,6 +88,7 @@ func genC13(t *rapid.T) *C13Case {
 		}
 		cf.Dataset = rapid.SampledFrom(c13Phrases).Draw(t, "dataset")
 		cf.File = rapid.SampledFrom(c13Phrases).Draw(t, "file")
+		cf.SchemaReq = rapid.SampledFrom([]string{"a", "b", "zz"}).Draw(t, "schemareq")
 		c.Confs = append(c.Confs, cf)
 	}
 	no := rapid.IntRange(2, 8).Draw(t, "nops")
@@ -92,6 +98,7 @@ func genC13(t *rapid.T) *C13Case {
 	// make sure there is at least one probe at the end
 	c.Ops = append(c.Ops, C13Op{Kind: "build", Conf: 0}, C13Op{Kind: "probe", Conf: 0})
 	c.Req = Req{Method: "GET", Path: rapid.SampledFrom([]string{"/p/7", "/abc", "/"}).Draw(t, "path")}
+	c.Req.Query = append(c.Req.Query, KV{"j", `{"a":"x"}`})
 	c.Req.Headers = []KV{{"Host", "h"}, {rapid.SampledFrom([]string{"X-Token", "Abc", "abc", "x"}).Draw(t, "hn"), "hv"}}
 	c.Req.Cookies = []KV{{rapid.SampledFrom([]string{"Abc", "X-Tok", "ab"}).Draw(t, "cn"), "cv"}}
 	vals := []string{"abc", "aaa", "select 1", "x", "ab", "123-45-6789", "404", "admin", "zzz", "union", "\xffabc", "x1", "ABC", "c", "bc", "unionselect", "a"}
@@ -104,9 +111,12 @@ func genC13(t *rapid.T) *C13Case {
 
 func (cf *C13Conf) build() (coraza.WAF, error) {
 	conf := "SecRuleEngine On\nSecDataset ds `\n" + strings.Join(cf.Dataset, "\n") + "\n`\n" + strings.Join(cf.Lines, "\n") + "\n"
-	root := fstest.MapFS{"words.data": &fstest.MapFile{Data: []byte(strings.Join(cf.File, "\n") + "\n")}}
+	root := fstest.MapFS{"words.data": &fstest.MapFile{Data: []byte(strings.Join(cf.File, "\n") + "\n")},
+		"schema.json": &fstest.MapFile{Data: []byte(`{"$schema":"https://json-schema.org/draft/2020-12/schema","$id":"https://verif.example/schema.json","type":"object","required":["` + cf.SchemaReq + `"]}`)}}
 	return coraza.NewWAF(coraza.NewWAFConfig().WithRootFS(root).WithDirectives(conf))
 }
+
+var reC13SchemaRule = regexp.MustCompile(`@validateSchema schema\.json" "id:(\d+),phase:1`)
 
 func c13Probe(w coraza.WAF, r *Req) (string, *Failure) {
 	o, f := runCanonical(w, r)
@@ -201,6 +211,18 @@ func checkC13(c *C13Case) Result {
 				return res
 			}
 			outcomes = append(outcomes, fmt.Sprintf("step %d conf %d: %s", step, op.Conf, s))
+			// the schema role has a direct expectation (the "alone" baseline shares the process with every earlier
+			// case, so state that memoize.Reset does not clear would already be in it): {"a":"x"} violates the
+			// schema, and the rule fires, exactly when the WAF's own schema.json requires something else than "a"
+			for _, l := range c.Confs[op.Conf].Lines {
+				if m := reC13SchemaRule.FindStringSubmatch(l); m != nil {
+					fired := strings.Contains(s, "rule "+m[1]+":")
+					if want := c.Confs[op.Conf].SchemaReq != "a"; fired != want {
+						res.Fail = failf("step %d: configuration %d: @validateSchema rule %s fired=%v on %s, but its own schema.json requires %q (expected fired=%v)\n%s", step, op.Conf, m[1], fired, `{"a":"x"}`, c.Confs[op.Conf].SchemaReq, want, desc())
+						return res
+					}
+				}
+			}
 			if s != solo[op.Conf] {
 				res.Fail = failf("step %d: configuration %d behaves differently in this history than when built alone:\n--- alone\n%s--- in the history\n%s\n%s", step, op.Conf, solo[op.Conf], s, desc())
 				return res
@@ -246,6 +268,8 @@ func checkC13(c *C13Case) Result {
 			return "dataset"
 		case strings.Contains(l, "pmFromFile"):
 			return "file"
+		case strings.Contains(l, "@validateSchema"):
+			return "schema"
 		}
 		return ""
 	}
